@@ -51,7 +51,7 @@ static int32_t s_accept(qb_ipcs_connection_t *c, uid_t u, gid_t g) { (void)c; (v
 static void s_created(qb_ipcs_connection_t *c) { SC = c; }
 static int32_t s_closed(qb_ipcs_connection_t *c) { (void)c; return 0; }
 static void s_destroyed(qb_ipcs_connection_t *c) { if (c == SC) SC = NULL; }
-static int tail_phase;
+static int tail_phase, phaseA_rounds = 12;
 static int32_t s_msg(qb_ipcs_connection_t *c, void *data, size_t size)
 {
 	int beh;
@@ -178,9 +178,23 @@ static void client_main(void *arg)
 	/* the server still gets turns (and its remaining application actions) after the client's last operation;
 	   the client is waiting, so there is nothing left to interleave: no scheduling choices any more */
 	W_free_choices = 0;
+	vp_blocked_switch_cost = 1;      /* from here on one canonical schedule (who runs when somebody blocks), deviations only within the bound */
 	tail_phase = 1;
 	{ struct timespec ts = { 0, 5000000 }; int i; for (i = 0; i < 2; i++) { W_poke_server = 1; nanosleep(&ts, NULL); } }
 	tail_phase = 0;
+	/* first the events, with the rate limit left as the application set it: flow control on the request side must not
+	   keep queued events (or their wake-ups) from the client */
+	{
+		int rounds;
+		drain_phase = 3;                /* no more choices, no rate-limit reset yet */
+		for (rounds = 0; rounds < phaseA_rounds && evh != evt; rounds++) {
+			struct timespec ts = { 0, 20000000 + 7777 };    /* never the same instant as one of the server's 1 ms retry waits: simultaneous
+									   wake-ups would be explored in both orders, which doubles the work per round */
+			nanosleep(&ts, NULL);
+			check_pollin("drain of events");
+			c_recv(1);
+		}
+	}
 	drain_phase = 1;
 	{
 		int rounds;
@@ -207,6 +221,7 @@ static void run(void)
 	struct qb_ipcs_service_handlers h = { .connection_accept = s_accept, .connection_created = s_created, .msg_process = s_msg,
 					      .connection_closed = s_closed, .connection_destroyed = s_destroyed };
 	world_init_sched();
+	vp_blocked_switch_cost = 0;
 	rqh = rqt = rsh = rst = evh = evt = seqctr = client_done = drain_phase = tail_phase = 0; SC = NULL; CC = NULL;
 	memset(&IF_RQ, 0, sizeof IF_RQ); memset(&IF_RS, 0, sizeof IF_RS); memset(&IF_EV, 0, sizeof IF_EV);
 	sactions_left = sactions_max;
@@ -230,6 +245,7 @@ static void init(void)
 	cdepth = (int)vp_param("client_ops", 3, 4);
 	sactions_max = (int)vp_param("server_actions", 1, 2);
 	small_bufs = (int)vp_param("small_socket_buffers", 0, 0);
+	phaseA_rounds = (int)vp_param("event_drain_rounds", 12, 12);
 }
 
 int main(int argc, char **argv)
